@@ -165,7 +165,7 @@ def run_rules(ctx, chk):
         rnew = [b for b in fb.bodies(common.SHM) if b.name == 'new' and (b.impl_self or '').endswith('ShmReader') and b.defkind != 'Closure']
         for b in rnew:
             chk.saw(b)
-            eng_n = common.mk_engine(fb, inline_depth=8)
+            eng_n = common.mk_engine(fb, inline_depth=8, loop_unroll=8)
             n_ok = 0
             for q in eng_n.run(b):
                 if not (q.kind == 'return' and q.value[0] == 'agg' and q.value[2] == 'Ok' and q.value[3] and q.value[3][0][0] == 'agg'):
